@@ -41,6 +41,7 @@ func (fr *Frame) closureTerm(s *State, c *Closure, paramTypes []types.Type, hyp 
 		vals = append(vals, &Val{T: t, S: n})
 	}
 	sq := s.fork(hyp(consts))
+	guard0 := sq.g
 	saved := fr.vc.inlineDefs
 	fr.vc.inlineDefs = true
 	before := fr.vc.ndecl
@@ -50,6 +51,11 @@ func (fr *Frame) closureTerm(s *State, c *Closure, paramTypes []types.Type, hyp 
 		return nil, false
 	}
 	term := res[0].S
+	if isAtom(guard0) && guard0 != "true" && guard0 != "false" {
+		// the guard of the evaluation state (path condition and range hypothesis, stated over the symbolic
+		// arguments) is supplied again by every use of the instantiated term
+		term = substToken(term, guard0, "true")
+	}
 	return func(args ...string) string {
 		t := term
 		// two-step substitution through placeholders (arguments may mention each other's names)
